@@ -591,7 +591,9 @@ fn mm_array(out: &mut Vec<u8>, entries: usize) {
 
 /// the city of a marker hop with an odd ttl
 fn geo_marker(ttl: u8) -> String {
-    format!("Zq{:02}burg", ttl % 100)
+    // hops 7 and 9 are in the same city, at different positions (two networks of one town)
+    let t = if ttl % 100 == 9 { 7 } else { ttl % 100 };
+    format!("Zq{t:02}burg")
 }
 
 /// the position of a marker hop with an odd ttl (distinctive decimals: no statistic prints three of them)
@@ -932,7 +934,10 @@ impl Live {
             // the city of a hidden hop (only marker hops with an odd ttl have one)
             if self.setup.geoip_mode >= 4 {
                 for &(t, _) in self.marks.iter().filter(|&&(t, _)| t <= n && t % 2 == 1 && t < 100) {
-                    v.push(geo_marker(t));
+                    // its city, unless a hop that is shown is in the same city
+                    if !self.marks.iter().any(|&(u, _)| u > n && u % 2 == 1 && u < 100 && geo_marker(u) == geo_marker(t)) {
+                        v.push(geo_marker(t));
+                    }
                     // and its position (the map's info panel, the location display mode)
                     let (lat, long) = geo_coordinates(t);
                     v.push(lat.to_string());
@@ -1414,6 +1419,15 @@ fn directed() -> Vec<(&'static str, Setup, Vec<Op>)> {
         ("geoip-map-privacy-3-long", geo(Some(3), 2), walk(6)),
         ("geoip-map-privacy-4-location", geo(Some(4), 3), walk(6)),
         ("geoip-map-privacy-off", geo(None, 1), walk(6)),
+        // two hops of one city at different positions, the first of them hidden
+        ("geoip-map-same-city-hidden-and-shown", geo(Some(7), 2), {
+            let ten = [c(0), c(0), c(0), c(0), c(0), c(0), c(0), c(0), c(0), c(0)];
+            let mut v = vec![path(0, &ten), path(0, &ten), Op::Frame(120, 40), K("toggle_map"), Op::Frame(120, 40)];
+            for _ in 0..10 {
+                v.extend([K("next_hop"), Op::Frame(120, 40)]);
+            }
+            v
+        }),
         // the database read under a locale in which no city has a name: hops of different cities in one province
         ("geoip-map-privacy-1-other-locale", geo(Some(1), 4 + 2), walk(6)),
         ("geoip-map-privacy-2-other-locale", geo(Some(2), 4 + 1), walk(6)),
